@@ -103,11 +103,11 @@ def frame_obligations(rep):
                           {'found': [ast.unparse(n) for n in loads]})
 
 
-def lock_obligations(rep):
+def lock_obligations(rep, prop='C20'):
     q = 'sqlparse.lexer.Lexer.get_default_instance'
     node = source().get(q)
     if node is None:
-        common.structural(rep, 'C20/%s/exists' % q, q, False, {}, undecided_if_false=True)
+        common.structural(rep, '%s/%s/exists' % (prop, q), q, False, {}, undecided_if_false=True)
         return
     body = [s for s in node.body if not (isinstance(s, ast.Expr) and isinstance(s.value, ast.Constant))]
     regions = effects.with_lock_regions(node)
@@ -117,14 +117,14 @@ def lock_obligations(rep):
     last = body[-1] if body else None
     outside = [n for n in reads if not any(a <= n.lineno <= b for a, b in regions)
                and not (isinstance(last, ast.Return) and last.lineno <= n.lineno <= last.end_lineno)]
-    common.structural(rep, 'C20/%s/monitor: the instance is only tested and initialised while holding the lock' % q, q,
+    common.structural(rep, '%s/%s/monitor: the instance is only tested and initialised while holding the lock' % (prop, q), q,
                       len(regions) == 1 and not outside and isinstance(body[0], ast.With),
                       {'lock_regions': regions, 'reads_outside': [n.lineno for n in outside]})
     # the assignment and default_initialization() are both inside the same with block
     calls = [n for n in ast.walk(node) if isinstance(n, ast.Call) and isinstance(n.func, ast.Attribute)
              and n.func.attr == 'default_initialization']
     ok = bool(calls) and all(any(a <= n.lineno <= b for a, b in regions) for n in calls)
-    common.structural(rep, 'C20/%s/monitor: initialisation completes before the lock is released' % q, q, ok,
+    common.structural(rep, '%s/%s/monitor: initialisation completes before the lock is released' % (prop, q), q, ok,
                       {'init_calls': [n.lineno for n in calls]})
 
 
